@@ -273,7 +273,11 @@ class FuncCalendar(IWorkCalendar):
         self.__func = func
 
     def get_available_units(self, date: datetime) -> Optional[float]:
-        return self.__func(self.__calendar.get_available_units(date))
+        units = self.__calendar.get_available_units(date)
+        if units is None:
+            # No information at that date: nothing to apply function to
+            return None
+        return self.__func(units)
 
     def __repr__(self):
         res = 'Func: ' + str(self.__func) + '\n'
